@@ -22,6 +22,14 @@ func main() {
 		os.Exit(2)
 	}
 	name := os.Args[1]
+	if name == "codec-write1" {
+		engines.CodecWrite1(os.Args[2])
+		return
+	}
+	if name == "registry" {
+		engines.DumpRegistry()
+		return
+	}
 	if name == "consts" {
 		engines.DumpConsts()
 		return
